@@ -67,7 +67,7 @@ class C20(Sim):
             "distinct = distinct (element-kind, op-kind multiset signature, interleaving hash); "
             "non-trivial = at least one union that merged two blocks or one pop of a non-empty queue")
     FAULT_KINDS = ["reject"]
-    PROBES = ["caller_reuses_init_list", "other_instance_in_between", "held_item_rechecked", "self_union", "union_absent", "repeat_add", "tie_pop", "inf_priority", "mixed_elements", "tuple_elements",
+    PROBES = ["constructor_range", "caller_reuses_init_list", "other_instance_in_between", "held_item_rechecked", "self_union", "union_absent", "repeat_add", "tie_pop", "inf_priority", "mixed_elements", "tuple_elements",
               "component_query", "mapping_query", "merge", "constructor_duplicates", "same_item_pushed_again", "deep_tree_bulk_query"]
     QUICK_RUNS = 12000
     THOROUGH_RUNS = 2000000
@@ -86,6 +86,8 @@ class C20(Sim):
             base = rng.choice([0, 0, 7, -3, 10 ** 6])
             elts = [base + i * rng.choice([1, 1, 3]) for i in range(n)]
             elts = sorted(set(elts))
+            if rng.chance(0.3):
+                elts = elts[::-1]  # (a descending progression: handed to the constructor as range(hi, lo, -step) when it is one)
         elif kind == "tuple":
             elts = [[i // 4, i % 4] for i in range(n)]
             if rng.chance(0.3):
@@ -133,7 +135,13 @@ class C20(Sim):
             init = init + [init[i % len(init)] for i in cfg["init_dups"]]  # "repeated adds": also through the constructor's initial list
             self.probes["constructor_duplicates"] += 1
         self.init_list = init  # the caller's own list: it stays the caller's (see op caller_list)
-        self.uf = UnionFind(init) if init else UnionFind()
+        arg = init
+        if init and all(isinstance(e, int) for e in init) and len(init) >= 2 and len(set(init)) == len(init):
+            st_ = init[1] - init[0]
+            if st_ != 0 and list(range(init[0], init[-1] + (1 if st_ > 0 else -1), st_)) == init and cfg.get("init_as_range", True):
+                arg = range(init[0], init[-1] + (1 if st_ > 0 else -1), st_)  # the same elements handed over as a range object
+                self.probes["constructor_range"] += 1
+        self.uf = UnionFind(arg) if init else UnionFind()
         self.ref = RefUF()
         for e in init:
             self.ref.add(e)
